@@ -135,6 +135,7 @@ func cmdVC(args []string) {
 	verbose := fs.Bool("v", false, "print models")
 	only := fs.String("o", "", "only obligations whose name contains this")
 	fs.Parse(args)
+	allSolvers = true
 	l := loadRepo(fs.Args())
 	fmt.Printf("loaded in %.1fs, %d functions, %d contracts\n", l.loadS, len(l.funcs), len(l.cs.Funcs))
 	if irep := genInducts(l.prog, l.cs, ""); len(irep.Obls) > 0 || irep.Err != "" {
